@@ -82,6 +82,46 @@ def rule_wfs(ctx, rep):
                     if all(t is not False for t in t_end) and any(t is False for t in t_node):
                         ok = True
                 rep.check(ok, "C11.wfs", tag + ".null-iff-END", "NULL only when head == END", "NULL returned on %s" % [ir.atom_str(a) for a in atoms], [f.rets()[0].where()])
+        # which way each decision goes: WOULDBLOCK only in non-blocking mode after the successor wait reported it or the cmpxchg lost; a node
+        # only from the attempt whose cmpxchg succeeded; LAST only when the new head is END
+        def _exp(atoms):
+            out = []
+            for a in atoms:
+                if len(a) == 3 and a[0] == "ne" and a[2] == ("c", 0) and a[1][0] in ("select", "bin", "icmp"):
+                    lv = []
+                    pat.leaf_atoms(("icmp", "ne", a[1], ("c", 0)), True, lv)
+                    out += lv or [a]
+                else:
+                    out.append(a)
+            return out
+        is_sync = lambda x: x[0] == "call" and f.mod.fn(x[1]) is not None and f.mod.fn(x[1]).srcname == "___cds_wfs_node_sync_next"
+        is_cas = lambda x: x[0] == "asm" and x[2] == c.inst.id
+        for p, atoms, v in paths.ret_cases(f):
+            atoms = _exp(atoms)
+            site = [f.blocks[p[-1]].insts[-1].where()]
+            wb_eq = any(a[0] == "eq" and a[2] == ("c", -1) and is_sync(a[1]) for a in atoms)
+            cas_ok = any(a[0] == "eq" and (is_cas(a[1]) or is_cas(a[2])) for a in atoms)
+            cas_ko = any(a[0] == "ne" and (is_cas(a[1]) or is_cas(a[2])) for a in atoms)
+            if v == ("c", -1):
+                rep.check(wb_eq or cas_ko, "C11.wfs", tag + ".wouldblock-only-when-blocked", "WOULDBLOCK is returned only after the successor wait reported it or the head cmpxchg lost",
+                          "WOULDBLOCK is returned on a path where the successor was available and no cmpxchg was lost: a pop that could proceed reports failure (and one that must wait goes on with the sentinel)", site)
+            elif v is not None and v != ("c", 0):
+                rep.check(cas_ok and not wb_eq, "C11.wfs", tag + ".node-only-from-winning-attempt", "a node is returned only by the attempt whose cmpxchg succeeded, never after a WOULDBLOCK wait result",
+                          "a node is returned %s" % ("after the successor wait reported WOULDBLOCK (the sentinel became the new head)" if wb_eq else "without this attempt's cmpxchg having succeeded"), site)
+        END_ = 1
+        for s_ in sst:
+            lv = pat.dom_leaf_atoms(f, s_)
+            isend = [a for a in lv if len(a) == 3 and (is_sync(a[1]) or is_sync(a[2])) and (a[1] == ("c", END_) or a[2] == ("c", END_))]
+            if isend:
+                rep.check(all(a[0] == "eq" for a in isend), "C11.wfs", tag + ".LAST-iff-new-head-END", "CDS_WFS_STATE_LAST is reported only when the new head is END", "the `last element` flag is set when the new head is *not* END", [s_.where()])
+            else:
+                bits = [a for a in lv if len(a) == 3 and a[1][0] == "bin" and a[1][1] == "and" and is_sync(a[1][2])]
+                if bits:
+                    rep.check(all(a[0] == "ne" for a in bits), "C11.wfs", tag + ".LAST-iff-new-head-END", "CDS_WFS_STATE_LAST is reported only when the new head carries the END mark", "the `last element` flag is set when the new head does not carry the END mark", [s_.where()])
+                elif any(pat.atom_mentions(a, is_sync) for a in lv if len(a) == 3):
+                    rep.bad("C11.wfs", tag + ".LAST-iff-new-head-END", "the `last element` flag is set on a path that does not establish `new head is END`: pops of non-last elements report LAST", [s_.where()])
+                else:
+                    rep.unk("C11.wfs", tag + ".LAST-iff-new-head-END", "the guard of the `last element` flag is not recognised")
     for lib, f in copies(ctx, "___cds_wfs_pop_all"):
         rep.touch(f)
         xs = pat.accesses(f, None, ("xchg",))
